@@ -103,7 +103,7 @@ func init() {
 	register(&Check{
 		ID:    "C08",
 		Level: "exploration",
-		Rule: "exhaustive enumeration of source texts: (1) all sequences of <= k tokens over a 66-token alphabet (one representative per parser-relevant class, incl. truncated strings/comments/regex literals) in each of 14 grammatical contexts; (2) every byte prefix and every token prefix of every corpus program (docs/examples, every source compiled by the repository's tests, generated programs covering each production); (3) every one-token deletion, duplication, adjacent swap and substitution by each alphabet token of those programs; (4) every regex-literal body of <= m chars over a 24-char alphabet and every string-literal body of <= 5 chars over {backslash, x, 0, G, both quotes, blank, newline} in both quote styles; (5) every byte string of length <= 2 (thorough 3 over a 40-byte subset); (6) 32 templates with a count in every numeric position of the language (loop bounds, nested loops, amounts, regex {n,m}, process numbers) x 16 count values from 0 to 10^30 incl. 2^31, 2^32, 2^63-1, 2^63, 2^64 (pairs for two-position templates), one source per unit; (8) every backslash escape (94 characters) in 9 regex shapes x 3 commands; (7) 51 families of nested / chained constructs (operator chains, parentheses, if / loop blocks, groups, loops, subroutines, captures, regex groups and alternations, long comments, many commands) at sizes 8..256, one source per unit; " +
+		Rule: "exhaustive enumeration of source texts: (1) all sequences of <= k tokens over a 66-token alphabet (one representative per parser-relevant class, incl. truncated strings/comments/regex literals) in each of 14 grammatical contexts; (2) every byte prefix and every token prefix of every corpus program (docs/examples, every source compiled by the repository's tests, generated programs covering each production); (3) every one-token deletion, duplication, adjacent swap and substitution by each alphabet token of those programs; (4) every regex-literal body of <= m chars over a 24-char alphabet and every string-literal body of <= 5 chars over {backslash, x, 0, G, both quotes, blank, newline} in both quote styles; (5) every byte string of length <= 2 (thorough 3 over a 40-byte subset); (6) 32 templates with a count in every numeric position of the language (loop bounds, nested loops, amounts, regex {n,m}, process numbers) x 16 count values from 0 to 10^30 incl. 2^31, 2^32, 2^63-1, 2^63, 2^64 (pairs for two-position templates), one source per unit; (8) every backslash escape (94 characters) in 9 regex shapes x 3 commands; (7) 54 families of nested / chained constructs (operator chains, parentheses, if / loop blocks, groups, loops, subroutines, captures, regex groups and alternations, long comments, many commands) at sizes 8..256, one source per unit; " +
 			"oracle: program xor error, error printable, no panic, no hang (20 s / 2 GiB watchdog), accepted tree has no nil node and every command generated; non-trivial = distinct sources that Compile rejects with an error or accepts after a non-trivial parse (all sources are distinct by construction; counted: sources with >= 2 tokens)",
 		Assume: []string{"time/memory bound is decided as: within 20 s and 2 GiB per source on the enumerated short sources"},
 		Budget: map[string]int{"quick": 150, "thorough": 1500},
@@ -464,8 +464,20 @@ func c08DeepSources() []string {
 			"find all 'a' -- "+rep("c", n*16)+"\n 'b'",
 			"find all 'a' --("+rep("(c) ", n*16)+")-- 'b'",
 			rep("set p to pattern 'a'\n", n)+"find all p",
+			c08Chain(n, "p%d p%d"), c08Chain(n, "p%d maybe p%d 'b'"), c08Chain(n, "{p%d} = s s p%d"),
 			rep("find all 'a'\n", n),
 		)
 	}
 	return out
+}
+
+// c08Chain: n stored patterns, each mentioning the previous one twice (the program must stay linear in n)
+func c08Chain(n int, body string) string {
+	var b strings.Builder
+	b.WriteString("set p0 to pattern 'a'\n")
+	for i := 1; i <= n; i++ {
+		fmt.Fprintf(&b, "set p%d to pattern %s\n", i, fmt.Sprintf(body, i-1, i-1))
+	}
+	fmt.Fprintf(&b, "find all p%d", n)
+	return b.String()
 }
